@@ -972,7 +972,10 @@ spif_dlinked_list_reverse(spif_dlinked_list_t self)
         current = current->next;
         SWAP(tmp->prev, tmp->next);
     }
-    self->head = tmp;
+    /* The old ends trade places. */
+    tmp = self->head;
+    self->head = self->tail;
+    self->tail = tmp;
     return TRUE;
 }
 
